@@ -347,7 +347,15 @@ func matchOp(root interface{}, path, op string, operand interface{}) (bool, erro
 			return false, reject("$elemMatch needs a document")
 		}
 		if fanned {
-			return false, outside("$elemMatch on a fan-out path")
+			// a path that fans out over sub-documents: each array found at the leaf is tested on its own (some element of
+			// one of them must satisfy all conditions). Decided only when every value at the leaf is an array of
+			// scalars or documents; scalar leaves under a fan-out are left to the laws.
+			for _, c := range cands {
+				a, ok := c.(bson.A)
+				if !ok || hasNestedArray(a) {
+					return false, outside("$elemMatch on a fan-out path with non-array leaves")
+				}
+			}
 		}
 		if len(q) == 0 {
 			return false, outside("$elemMatch with empty query")
